@@ -67,6 +67,7 @@ type Check struct {
 	Text        string   `json:"text"`      // level_claimed.text
 	Note        string   `json:"note"`      // level_note
 	Technique   string   `json:"technique"` // deciding method
+	Only        string   `json:"only"`      // harness file prefixes this check needs (fallback build when the full package does not compile)
 }
 
 // Config is checks.json.
@@ -550,6 +551,14 @@ func runCheck(cfg *Config, chk *Check, tier string) int {
 	var jobs []batchJob
 	for _, u := range chk.Units {
 		bin, err := build(cfg, u.Pkg, u.Variant)
+		if err != nil && os.Getenv("VERIF_ONLY") == "" && chk.Only != "" {
+			// another check's harness file in this package does not compile against
+			// this tree: fall back to this check's own harness files only
+			fmt.Fprintf(os.Stderr, "vcheck: full harness build of %s failed, retrying with only %s\n", u.Pkg, chk.Only)
+			os.Setenv("VERIF_ONLY", chk.Only)
+			bin, err = build(cfg, u.Pkg, u.Variant)
+			os.Unsetenv("VERIF_ONLY")
+		}
 		key += treeKey(u.Pkg) + " "
 		if err != nil {
 			fmt.Fprintln(os.Stderr, err)
